@@ -5,7 +5,8 @@ For each seeded/<id>/patch.diff: git -C /repo apply, run the property's own chec
 related ones given on the command line or in RELATED), git -C /repo checkout -- . afterwards.
 Writes /verif/seeded/RESULTS.json and updates each meta.json (`detected_by`).
 
-usage: tools/eval_seeded.py [ids...]        (default: all)
+usage: tools/eval_seeded.py [ids...]        (default: all; the documented procedure: patch /repo, check, revert)
+       tools/eval_seeded.py --parallel 4 [ids...]   (same, but in 4 scratch worktrees of /repo under /tmp/zv-eval, removed afterwards)
        EVAL_TIER=thorough tools/eval_seeded.py C02-A
 """
 import json
@@ -29,7 +30,87 @@ def sh(cmd, **kw):
     return subprocess.run(cmd, shell=True, capture_output=True, text=True, **kw)
 
 
+def eval_one(sid, repo, tier, seed, extra_env):
+    """apply seeded/<sid>/patch.diff to `repo`, run the related checks, revert; returns (result row, meta update)"""
+    d = os.path.join(SEEDED, sid)
+    meta = json.load(open(os.path.join(d, "meta.json")))
+    prop = meta["property"]
+    a = sh("git -C %s apply %s" % (repo, os.path.join(d, "patch.diff")))
+    if a.returncode != 0:
+        return sid, dict(error="patch does not apply: %s" % a.stderr.strip()[:200]), None
+    try:
+        row = {}
+        for chk in RELATED.get(prop, [prop]):
+            t0 = time.time()
+            r = sh("./check %s --tier %s" % (chk, tier), cwd=VERIF, env=dict(os.environ, VERIF_SEED=seed, **extra_env))
+            sigs = re.findall(r"violation signatures: (\{.*\})", r.stdout)
+            nviol = len(re.findall(r"^VIOLATION ", r.stdout, re.M))
+            row[chk] = dict(rc=r.returncode, violations_printed=nviol, signatures=json.loads(sigs[0]) if sigs else {}, wall_s=round(time.time() - t0, 1))
+            first = re.search(r"^  signature=(.*)$", r.stdout, re.M)
+            if first:
+                row[chk]["first"] = first.group(1)[:400]
+        res = dict(tier=tier, seed=int(seed), checks=row, detected=any(v["rc"] == 1 for v in row.values()),
+                   detected_by_own_check=row.get(prop, {}).get("rc") == 1, repo=repo)
+        meta["detected_by"] = sorted(k for k, v in row.items() if v["rc"] == 1)
+        meta["evaluation"] = dict(tier=tier, seed=int(seed), ran="git -C %s apply seeded/%s/patch.diff; ./check <id> --tier %s; git -C %s checkout -- ." % (repo, sid, tier, repo),
+                                  outcome={k: dict(rc=v["rc"], signatures=v["signatures"]) for k, v in row.items()})
+        return sid, res, meta
+    finally:
+        sh("git -C %s checkout -- ." % repo)
+
+
+def main_parallel(ids, n, tier, seed):
+    """same evaluation in n scratch worktrees of /repo (ZERV_VERIF_REPO / _CACHE / _EVIDENCE point the framework at them)"""
+    import concurrent.futures
+    import queue
+    import shutil
+    base = "/tmp/zv-eval"
+    shutil.rmtree(base, ignore_errors=True)
+    os.makedirs(base)
+    slots = queue.Queue()
+    for i in range(n):
+        wt = os.path.join(base, "w%d" % i)
+        r = sh("git -C %s worktree add --detach %s HEAD" % (REPO, wt))
+        if r.returncode != 0:
+            print("cannot create worktree: %s" % r.stderr)
+            return 2
+        slots.put((wt, dict(ZERV_VERIF_REPO=wt, ZERV_VERIF_CACHE=os.path.join(base, "c%d" % i), ZERV_VERIF_EVIDENCE=os.path.join(base, "e%d" % i))))
+    res_path = os.path.join(SEEDED, "RESULTS.json")
+    results = json.load(open(res_path)) if os.path.exists(res_path) else {}
+
+    def job(sid):
+        wt, env = slots.get()
+        try:
+            return eval_one(sid, wt, tier, seed, env)
+        finally:
+            slots.put((wt, env))
+    try:
+        with concurrent.futures.ThreadPoolExecutor(n) as ex:
+            for sid, res, meta in ex.map(job, ids):
+                results[sid] = res
+                if meta is not None:
+                    json.dump(meta, open(os.path.join(SEEDED, sid, "meta.json"), "w"), indent=1, ensure_ascii=False)
+                print("%s  %s" % (sid, {k: (v["rc"], v["signatures"]) for k, v in res.get("checks", {}).items()} or res))
+                sys.stdout.flush()
+                json.dump(results, open(res_path, "w"), indent=1, sort_keys=True)
+    finally:
+        for i in range(n):
+            sh("git -C %s worktree remove --force %s" % (REPO, os.path.join(base, "w%d" % i)))
+        sh("git -C %s worktree prune" % REPO)
+        shutil.rmtree(base, ignore_errors=True)
+    missed = [k for k in ids if not results.get(k, {}).get("detected")]
+    own = [k for k in ids if not results.get(k, {}).get("detected_by_own_check")]
+    print("evaluated %d, not detected: %s ; not detected by own check: %s" % (len(ids), missed, own))
+    return 0
+
+
 def main():
+    if "--parallel" in sys.argv:
+        i = sys.argv.index("--parallel")
+        n = int(sys.argv[i + 1])
+        del sys.argv[i:i + 2]
+        ids = sys.argv[1:] or sorted(d for d in os.listdir(SEEDED) if os.path.isdir(os.path.join(SEEDED, d)))
+        return main_parallel(ids, n, os.environ.get("EVAL_TIER", "quick"), os.environ.get("VERIF_SEED", "0"))
     ids = sys.argv[1:] or sorted(d for d in os.listdir(SEEDED) if os.path.isdir(os.path.join(SEEDED, d)))
     tier = os.environ.get("EVAL_TIER", "quick")
     seed = os.environ.get("VERIF_SEED", "0")
